@@ -39,7 +39,7 @@ TraceStep ==
          T == e.post
      IN IF e.kind # "reset" /\ ~(SafeWorld(S) /\ SafeWorld(T))
         THEN \* reserves beyond what TLC's integers can multiply: no verdict on this step
-             /\ aux' = aux /\ nviol' = nviol /\ keys' = keys /\ ndist' = ndist
+             /\ aux' = AuxNextUnsafe(aux, S, e, T) /\ nviol' = nviol /\ keys' = keys /\ ndist' = ndist
              /\ hits' = Bump(hits, {"events", "unsafe_skipped"})
         ELSE IF e.kind = "reset"
         THEN /\ aux' = AuxInit(T)
@@ -55,6 +55,10 @@ TraceStep ==
                           THEN DriftOf(S, e, T)
                                \* the ghost snapshot list (Props.tla) must equal the stored one on a faithful tree
                                \cup (IF \E v \in Vs(T) : AuxNext(aux, S, e, T).gsnaps[v] # T.vamm[v].snaps THEN {"gsnaps"} ELSE {})
+                               \cup (IF \E v \in Vs(T) : AuxNext(aux, S, e, T).gcpf[v] # Cpf(T, v) THEN {"gcpf"} ELSE {})
+                               \cup (IF \E v \in Vs(T), t \in Traders :
+                                         T.eng.pos[v][t].exists /\ T.eng.pos[v][t].size # 0
+                                         /\ AuxNext(aux, S, e, T).chk[v][t] # T.eng.pos[v][t].lupf THEN {"gchk"} ELSE {})
                           ELSE {}
                  extra == IF Only = "EXTRA" THEN X_All(S, e, T) ELSE {}
              IN /\ Report(l + 1, e, bad, S, T)
